@@ -295,19 +295,18 @@ Section Txt.
       = decor_prefix d' (fst dflt) ++ core ++ decor_suffix d' (snd dflt).
   Proof.
     destruct v as [s r d|vals tr c d sp|items pre im dt d sp].
-    - eexists. intro d'. rewrite encode_value_scalar. reflexivity.
-    - eexists. intro d'. rewrite encode_value_array. rewrite !app_assoc. rewrite <- !app_assoc. 
-      instantiate (1 := [x5b] ++ enc_elems (encode_value f) true vals
-                         ++ (if c && negb (match vals with [] => true | _ => false end) then [x2c] else [])
-                         ++ raw_encode tr [] ++ [x5d]).
-      rewrite <- !app_assoc. reflexivity.
-    - eexists. intro d'. rewrite encode_value_inline. cbv zeta.
-      instantiate (1 := [x7b] ++ raw_encode pre []
-                         ++ enc_kvs (encode_value f)
-                              (length (inline_values (S (value_size (VInline items pre im dt d sp))) [] items)) 0
-                              (inline_values (S (value_size (VInline items pre im dt d sp))) [] items)
-                         ++ [x7d]).
-      rewrite <- !app_assoc. reflexivity.
+    - exists (match repr_str r with Some t => t | None => scalar_default_repr s end).
+      intro d'. rewrite encode_value_scalar. reflexivity.
+    - exists ([x5b] ++ enc_elems (encode_value f) true vals
+              ++ (if c && negb (match vals with [] => true | _ => false end) then [x2c] else [])
+              ++ raw_encode tr [] ++ [x5d]).
+      intro d'. rewrite encode_value_array. rewrite <- !app_assoc. reflexivity.
+    - exists ([x7b] ++ raw_encode pre []
+              ++ enc_kvs (encode_value f)
+                   (length (inline_values (S (value_size (VInline items pre im dt d sp))) [] items)) 0
+                   (inline_values (S (value_size (VInline items pre im dt d sp))) [] items)
+              ++ [x7d]).
+      intro d'. rewrite encode_value_inline. cbv zeta. rewrite <- !app_assoc. reflexivity.
   Qed.
 
   Lemma set_decor_self v :
